@@ -114,6 +114,14 @@ def gen_specs(rep, tier):
         specs[-1]['float'] = True
     spec('point', div, 'line', [[0.1, 0.2, 0.3, 0.4]] * 6, 'g', [0, 3, 6], ['np2', 'np3'], [15])
     specs[-1]['float'] = True
+    #     all rows share a coordinate at 2^53 / -2^54, where the widening of the zero width by 1.0 is
+    #     absorbed (since the repair of _data2coord an ordinary class: the axis without extent puts
+    #     every row in the first cell, the other axis orders the rows)
+    spec('point', [[2.0 ** 53, 0.5], [2.0 ** 53, 1.5], None, [2.0 ** 53, 0.25], [2.0 ** 53, 1.0]], 'line',
+         [[0.5, -2.0 ** 54, 3.5, -2.0 ** 54], [1.5, -2.0 ** 54, 2.5, -2.0 ** 54], None,
+          [0.1, -2.0 ** 54, 0.2, -2.0 ** 54], [0.7, -2.0 ** 54, 0.9, -2.0 ** 54]], 'g', [0, 2, 5], [1, 2], [15, 20])
+    specs[-1]['float'] = True
+    specs.append({**specs[-1], 'active': 'h', 'cuts': [0, 5]})
     # 0b. every p of the property's range on frames covering all four quadrants of the extent
     #     (distances in the second half of the curve, >= 2^(2p-1), occur)
     quad = [[0, 0], [8, 8], [0, 8], [8, 0], [6, 6], [2, 6], [6, 2], None, [1, 1], [7, 1]]
